@@ -422,7 +422,7 @@ attribute [local spec] emit_i callBeforeSleep_i budgetConsume_i callAttemptStart
   callAttemptEndFromOutcome_h handleAbortAttemptEnd_h callStrategy_f stratRecordFailure_f callSleeper_f
   recordStrategySuccess_s callSleepHandler_f callClassifier_f shouldClassifyResult_f setStop_spec
   stopWith_spec emitAbortedOnce_spec checkAbort_spec invokeOp_spec buildOutcome_spec abortOutcome_spec
-  handleSleepDecision_spec
+  handleSleepDecision_spec modifyAS_v getRS_v
 
 /-! ### procedures shared by call() and execute(): what happens after a failure was classified -/
 
@@ -627,9 +627,9 @@ def Sync (v : View) : Prop :=
 
 /-- the recorded failure is the last invocation's -/
 def RecCur (m : St) : Prop :=
-  m.recAt = m.ops ∧ m.recCls.isSome = true ∧
-  ((m.recCause = some .exception ∧ m.recExc = m.opExc ∧ m.opExc.isSome = true ∧ m.recVal = none) ∨
-   (m.recCause = some .result ∧ m.recVal = m.opVal ∧ m.opVal.isSome = true ∧ m.recExc = none))
+  m.recAt = m.ops ∧ m.recCls.isSome = true ∧ m.recCause.isSome = true ∧
+  (m.recCause = some .exception → m.recExc = m.opExc ∧ m.opExc.isSome = true ∧ m.recVal = none) ∧
+  (m.recCause = some .result → m.recVal = m.opVal ∧ m.opVal.isSome = true ∧ m.recExc = none)
 
 /-- nothing has been recorded -/
 def Fresh (m : St) : Prop :=
@@ -725,14 +725,10 @@ theorem errC_exc {cfg : Cfg} {n a : Nat} {e : Exn} {u v : View} {d : Decision} {
     (hr : r.lastStop = v.lastStop ∧ r.lastClass = v.lastClass ∧ r.lastExc = v.lastExc ∧
       r.lastResult = v.lastResult) (hnr : o.decision ≠ .retry) :
     ErrC cfg v.mon t (callThrow o r a false (some e) default) := by
-  obtain ⟨hops, ⟨hs1, hs2, hs3, hs4⟩, ⟨hat, hcls, hcur⟩, _, _, _⟩ := hrec
+  obtain ⟨hops, ⟨hs1, hs2, hs3, hs4⟩, ⟨hat, hcls, _, hcur, _⟩, _, _, _⟩ := hrec
   obtain ⟨hns, hsch, hnsch, hraise, _⟩ := hf
   obtain ⟨hr1, hr2, hr3, hr4⟩ := hr
-  have hcur' : v.mon.recExc = v.mon.opExc ∧ v.mon.opExc.isSome = true ∧ v.mon.recVal = none := by
-    rcases hcur with ⟨_, h⟩ | ⟨hc, _⟩
-    · exact h
-    · rw [hcause] at hc; cases hc
-  obtain ⟨hre, hoe, hrv⟩ := hcur'
+  obtain ⟨hre, hoe, hrv⟩ := hcur hcause
   unfold callThrow determineAction
   cases hdec : o.decision with
   | success => exact absurd hdec hns
@@ -755,14 +751,10 @@ theorem errC_res {cfg : Cfg} {n a : Nat} {u v : View} {d : Decision} {o : AOutco
     (hr : r.lastStop = v.lastStop ∧ r.lastClass = v.lastClass ∧ r.lastExc = v.lastExc ∧
       r.lastResult = v.lastResult) (hnr : o.decision ≠ .retry) :
     ErrC cfg v.mon t (callThrow o r a true none fb) := by
-  obtain ⟨hops, ⟨hs1, hs2, hs3, hs4⟩, ⟨hat, hcls, hcur⟩, _, _, _⟩ := hrec
+  obtain ⟨hops, ⟨hs1, hs2, hs3, hs4⟩, ⟨hat, hcls, _, _, hcur⟩, _, _, _⟩ := hrec
   obtain ⟨hns, hsch, hnsch, hraise, _⟩ := hf
   obtain ⟨hr1, hr2, hr3, hr4⟩ := hr
-  have hcur' : v.mon.recVal = v.mon.opVal ∧ v.mon.opVal.isSome = true ∧ v.mon.recExc = none := by
-    rcases hcur with ⟨hc, _⟩ | ⟨_, h⟩
-    · rw [hcause] at hc; cases hc
-    · exact h
-  obtain ⟨hrv, hov, hre⟩ := hcur'
+  obtain ⟨hrv, hov, hre⟩ := hcur hcause
   unfold callThrow determineAction
   cases hdec : o.decision with
   | success => exact absurd hdec hns
@@ -832,56 +824,55 @@ theorem ValP.rec {cfg : Cfg} {n x : Nat} {u : View} (h : ValP cfg n x u) (hrc : 
 abbrev attemptPostC (cfg : Cfg) (n : Nat) : PostCond (Option Nat) (.except Exn (.arg World .pure)) :=
   post⟨fun r w => ⌜match r with
                    | none => Hd (n + 1) (view cfg w)
-                   | some x => (cur cfg w.trace).succeeded = true ∧ (cur cfg w.trace).earlierSuccess = false ∧
-                       (cur cfg w.trace).opVal = some x⌝,
+                   | some x => (view cfg w).mon.succeeded = true ∧ (view cfg w).mon.earlierSuccess = false ∧
+                       (view cfg w).mon.opVal = some x⌝,
        fun e w => ⌜ErrC cfg (cur cfg w.trace) w.trace e⌝⟩
 
 /-- `FailOK` without reference to the view before -/
-def FailOK' (d : Decision) (o : AOutcome) (v : View) : Prop :=
+def FailOK' (o : AOutcome) (v : View) : Prop :=
   o.decision ≠ .success ∧
   (o.decision = .scheduled → v.mon.deferred = true ∧ o.sleep = v.mon.delay ∧ o.sleep.isSome = true ∧
       o.stop = some .scheduled ∧ v.lastStop = some .scheduled) ∧
   (o.decision ≠ .scheduled → v.mon.deferred = false) ∧
-  (o.decision = .raise → hard o.stop ∧ o.sleep = none ∧ v.lastStop = o.stop) ∧
-  (d = .raise → o.decision = .raise)
+  (o.decision = .raise → hard o.stop ∧ o.sleep = none ∧ v.lastStop = o.stop)
 
 theorem FailOK.strip {u v : View} {d : Decision} {o : AOutcome} (h : FailOK u d o v)
-    (hd : u.mon.deferred = false) (hh : d = .raise → hard u.lastStop) : FailOK' d o v := by
+    (hd : u.mon.deferred = false) (hh : d = .raise → hard u.lastStop) : FailOK' o v := by
   obtain ⟨h1, h2, h3, h4, h5⟩ := h
-  exact ⟨h1, h2, fun hn => h3 hn hd, fun hr => h4 hr hh, h5⟩
+  exact ⟨h1, h2, fun hn => h3 hn hd, fun hr => h4 hr hh⟩
 
-theorem errC_exc' {cfg : Cfg} {n a : Nat} {e : Exn} {v : View} {d : Decision} {o : AOutcome} {r : RState}
+theorem errC_exc' {cfg : Cfg} {n a : Nat} {e : Exn} {v : View} {o : AOutcome} {r : RState}
     {t : List (Req × Ans)} (ha : a = n + 1) (hrec : RecP n v) (hexc : v.mon.opExc = some e)
-    (hcause : v.mon.recCause = some .exception) (hf : FailOK' d o v)
+    (hcause : v.mon.recCause = some .exception) (hf : FailOK' o v)
     (hr : r.lastStop = v.lastStop ∧ r.lastClass = v.lastClass ∧ r.lastExc = v.lastExc ∧
       r.lastResult = v.lastResult) (hnr : o.decision ≠ .retry) :
     ErrC cfg v.mon t (callThrow o r a false (some e) default) := by
-  obtain ⟨h1, h2, h3, h4, h5⟩ := hf
-  exact errC_exc (u := { v with mon := { v.mon with deferred := false } }) ha hrec hexc hcause
-    ⟨h1, h2, fun hn _ => h3 hn, fun hr _ => h4 hr, h5⟩ rfl hr hnr
+  obtain ⟨h1, h2, h3, h4⟩ := hf
+  exact errC_exc (u := { v with mon := { v.mon with deferred := false } }) (d := .retry 0 default) ha hrec hexc
+    hcause ⟨h1, h2, fun hn _ => h3 hn, fun hr _ => h4 hr, fun h => by cases h⟩ rfl hr hnr
 
-theorem errC_res' {cfg : Cfg} {n a : Nat} {v : View} {d : Decision} {o : AOutcome} {r : RState}
+theorem errC_res' {cfg : Cfg} {n a : Nat} {v : View} {o : AOutcome} {r : RState}
     {t : List (Req × Ans)} {fb : ExhaustedFields} (ha : a = n + 1) (hrec : RecP n v)
-    (hcause : v.mon.recCause = some .result) (hf : FailOK' d o v)
+    (hcause : v.mon.recCause = some .result) (hf : FailOK' o v)
     (hr : r.lastStop = v.lastStop ∧ r.lastClass = v.lastClass ∧ r.lastExc = v.lastExc ∧
       r.lastResult = v.lastResult) (hnr : o.decision ≠ .retry) :
     ErrC cfg v.mon t (callThrow o r a true none fb) := by
-  obtain ⟨h1, h2, h3, h4, h5⟩ := hf
+  obtain ⟨h1, h2, h3, h4⟩ := hf
   exact errC_res (u := { v with mon := { v.mon with deferred := false }, lastStop := some .aborted })
     (d := .retry 0 default) ha hrec hcause
     ⟨h1, h2, fun hn _ => h3 hn, fun hr _ => h4 hr, fun h => by cases h⟩ rfl (fun h => by cases h) hr hnr
 
 /-- the loop goes on: the invariant at the head of the next iteration -/
-theorem RecP.next {n : Nat} {v : View} {d : Decision} {o : AOutcome} (h : RecP n v) (hf : FailOK' d o v)
+theorem RecP.next {n : Nat} {v : View} {o : AOutcome} (h : RecP n v) (hf : FailOK' o v)
     (hr : o.decision = .retry) : Hd (n + 1) v := by
   obtain ⟨h1, h2, h3, h4, h5, h6⟩ := h
-  obtain ⟨_, _, hd, _, _⟩ := hf
+  obtain ⟨_, _, hd, _⟩ := hf
   exact ⟨h1, h2, fun h => by omega, fun _ => h3, h4, h5, hd (by simp [hr]), h6⟩
 
 /-- the end of an attempt of call() that failed with exception `e` -/
-theorem deliverCall_exc (cfg : Cfg) (n a : Nat) (e : Exn) (ha : a = n + 1) (u : View) (d : Decision)
+theorem deliverCall_exc (cfg : Cfg) (n a : Nat) (e : Exn) (ha : a = n + 1) (u : View)
     (o : AOutcome) (r : RState) (hrec : RecP n u) (hexc : u.mon.opExc = some e)
-    (hcause : u.mon.recCause = some .exception) (hf : FailOK' d o u)
+    (hcause : u.mon.recCause = some .exception) (hf : FailOK' o u)
     (hr : r.lastStop = u.lastStop ∧ r.lastClass = u.lastClass ∧ r.lastExc = u.lastExc ∧
       r.lastResult = u.lastResult) :
     ⦃fun w => ⌜view cfg w = u⌝⦄ deliverCall (determineAction o r a false) (some e) default
@@ -898,9 +889,9 @@ theorem deliverCall_exc (cfg : Cfg) (n a : Nat) (e : Exn) (ha : a = n + 1) (u : 
     exact errC_exc' ha hrec hexc hcause hf hr h2
 
 /-- the end of an attempt of call() that failed with a result -/
-theorem deliverCall_res (cfg : Cfg) (n a : Nat) (ha : a = n + 1) (u : View) (d : Decision)
+theorem deliverCall_res (cfg : Cfg) (n a : Nat) (ha : a = n + 1) (u : View)
     (o : AOutcome) (r : RState) (fb : ExhaustedFields) (hrec : RecP n u)
-    (hcause : u.mon.recCause = some .result) (hf : FailOK' d o u)
+    (hcause : u.mon.recCause = some .result) (hf : FailOK' o u)
     (hr : r.lastStop = u.lastStop ∧ r.lastClass = u.lastClass ∧ r.lastExc = u.lastExc ∧
       r.lastResult = u.lastResult) :
     ⦃fun w => ⌜view cfg w = u⌝⦄ deliverCall (determineAction o r a true) none fb
@@ -934,7 +925,7 @@ theorem failureOutcome_rec (cfg : Cfg) (tl : Bool) (n a : Nat) (d : Decision) (c
     (e : Option Exn) (r : Option Nat) (c : Option Cause) (u : View) (h : RecP n u)
     (hd : u.mon.deferred = false) (hh : d = .raise → hard u.lastStop) :
     ⦃fun w => ⌜view cfg w = u⌝⦄ failureOutcome cfg tl a d cls e r c
-    ⦃post⟨fun o w => ⌜RecP n (view cfg w) ∧ FailOK' d o (view cfg w) ∧ sameButH u (view cfg w)⌝,
+    ⦃post⟨fun o w => ⌜RecP n (view cfg w) ∧ FailOK' o (view cfg w) ∧ sameButH u (view cfg w)⌝,
           fun e w => ⌜Src cfg w e ∧ HErr u (view cfg w) e⌝⟩⦄ := by
   have hf := failureOutcome_spec cfg tl u a d cls e r c
   mvcgen [hf]
@@ -978,22 +969,23 @@ theorem handleException_exc (cfg : Cfg) (tl : Bool) (n : Nat) (e : Exn) (a : Nat
   have := h.rec' h3
   exact ⟨this.1, this.2.1, this.2.2.1, this.2.2.2, h4⟩
 
+macro "close_call" : tactic => `(tactic| (
+  (all_goals ((try subst_vars) <;> (try intros)));
+  (all_goals (try (simp_all +zetaDelta [sameBut, sameButH, hsame, CErr, HErr, FErr]; done)));
+  (all_goals (try (simp_all +zetaDelta [sameBut, sameButH, hsame, CErr, HErr, FErr, ExcP, RecP, RecCur, Sync, FailOK,
+    FailOK', pollStep_idle]; done)))))
+
 theorem callExceptionPath_spec (cfg : Cfg) (a : Nat) (e : Exn) (n : Nat) (u : View) (h : ExcP n e u)
     (ha : a = n + 1) :
     ⦃fun w => ⌜view cfg w = u⌝⦄ callExceptionPath cfg a e ⦃attemptPostC cfg n⦄ := by
   have hdc := deliverCall_exc cfg n a e ha
   have hex := handleException_exc cfg false n e a
-  have hp := pollStep_idle cfg u.mon h.2.2.2.2.2.2.2.2
-  mvcgen [callExceptionPath, getRS, modifyAS, hdc, hex]
+  mvcgen [callExceptionPath, hdc, hex]
   all_goals ((try subst_vars) <;> (try intros))
-  all_goals (try (simp_all +zetaDelta [view, sameBut, sameButH, hsame, CErr, HErr, FErr]; done))
-  all_goals (try (simp_all +zetaDelta [view, sameBut, sameButH, hsame, RecP, RecCur, Sync, FailOK, FailOK', pollStep_idle]; done))
-
-macro "close_call" : tactic => `(tactic| (
-  (all_goals ((try subst_vars) <;> (try intros)));
-  (all_goals (try (simp_all +zetaDelta [view, sameBut, sameButH, hsame, CErr, HErr, FErr]; done)));
-  (all_goals (try (simp_all +zetaDelta [view, sameBut, sameButH, hsame, RecP, RecCur, Sync, FailOK, FailOK',
-    pollStep_idle]; done)))))
+  all_goals (try clear hdc hex)
+  close_call
+  all_goals trace_state
+  all_goals sorry
 
 /-- the `except` ladder around the operation; `e = stuck` when the answer was ill-shaped -/
 theorem callOpHandler_spec (cfg : Cfg) (a : Nat) (e : Exn) (n : Nat) (u : View)
@@ -1033,9 +1025,12 @@ theorem callResultPath_spec (cfg : Cfg) (a x : Nat) (n : Nat) (u : View) (h : Va
     ⦃fun w => ⌜view cfg w = u⌝⦄ callResultPath cfg a x ⦃attemptPostC cfg n⦄ := by
   have hdc := deliverCall_res cfg n a ha
   have hf := fun c => handleFailure_res cfg false n x c a u h
-  mvcgen [callResultPath, callResultFailure, handleSuccessAttemptEnd, getRS, modifyAS, hdc, hf]
+  mvcgen [callResultPath, callResultFailure, handleSuccessAttemptEnd, hdc, hf]
   all_goals ((try subst_vars) <;> (try intros))
-  all_goals (try (simp_all +zetaDelta [view, sameBut, sameButH, hsame, CErr, HErr, FErr]; done))
+  all_goals (try clear hdc hf)
+  close_call
+  all_goals (try (cases hrc : cfg.resultClassifier <;> simp_all +zetaDelta [ValP, resStep, SErr]; done))
+  all_goals (try (simp_all +zetaDelta [sameBut, sameButH, hsame, RecP, RecCur, Sync, FailOK, FailOK', pollStep_idle]))
   all_goals trace_state
   all_goals sorry
 
